@@ -33,6 +33,11 @@ def run(res):
     add(9, {"enc_mode": 6}, "motion", 128, 128)
     add(17, {"hierarchical_levels": 3, "intra_period_length": 7, "logical_processors": 4}, "edges", 96, 64)
     add(10, {"rate_control_mode": 1, "target_bit_rate": 100000, "logical_processors": 1}, "motion", 176, 144)
+    # presets that temporally filter more than the base layer (<= 6), complete mini-GOPs, slowly moving content the filter really changes:
+    # the statistics must still refer to the SUBMITTED picture, not to the filtered one
+    add(20, {"enc_mode": 6, "hierarchical_levels": 3}, "pan", 176, 144)
+    add(20, {"enc_mode": 6, "hierarchical_levels": 3, "qp": 30}, "grad", 128, 96)
+    add(34, {"enc_mode": 5, "hierarchical_levels": 4}, "pan", 128, 128)
     # 10-bit input (a separate statistics path in the encoder)
     add(12, {}, "motion", 96, 80, bits=10)
     add(9, {"qp": 30, "hierarchical_levels": 3}, "noise", 70, 66, bits=10)
